@@ -17,20 +17,39 @@ history puts in force at that step (spec_descrs), and compared with the model's 
 Round 5: the FILL (model/PadGen.v, model/PadGenTie.v).  The fill is any one-column string: single cases carry the fill
 as a token list (a fill SEGMENT) and are judged by PadGenTie.gcheck (model pad_gen; oracle: every non-render cell shows
 what ONE fill shows in its cell); fills of several code points outside the lexer's vocabulary are substituted, whole
-fill by whole fill, by a placeholder glyph before lexing (prelex) - a fragment left behind is a failure."""
+fill by whole fill, by a placeholder glyph before lexing (prelex) - a fragment left behind is a failure.
+
+Round 6: (a) the render CONTENT (model/PadContent.v, model/PadContentTie.v).  pad() is a public function on any render output
+of the documented form (height lines separated by "\n", each occupying width columns): text renders whose lines hold ordinary
+glyphs, escape sequences in the middle of a line and characters that occupy no column and are NOT line separators of that
+form (U+2028, U+2029, U+001C..U+001E; and - judged at code-point level only - "\v", "\f", U+0085, combining marks, East-Asian
+wide characters) are padded directly, through Renderable.render(padding=) and as RenderIterator frames; beside the token-level
+judgement, a code-point level oracle that does not go through the lexer: the output split at "\n" ONLY has exactly
+padded-height lines (= get_padded_size) and every line of the render occurs unchanged on its own line.
+(b) ANIMATED draws (model/PadAnim.v, model/PadAnimTie.v): Renderable.draw() of a 2-3 frame text renderable on a pty with
+paddings whose top margin differs from the bottom margin; the whole output stream is executed on the terminal model and the
+padding oracle is applied to the FINAL SCREEN (last frame at (top, left) in the padded box, fill / untouched elsewhere)."""
 from __future__ import annotations
+
+import re
 
 import core
 import lexer
 import renderlib as R
 
 LEVEL = "proof"
-EXTRA_TARGETS = ["model/PadTie.vo", "model/PadHistTie.vo", "model/PadGenTie.vo"]
+EXTRA_TARGETS = ["model/PadTie.vo", "model/PadHistTie.vo", "model/PadGenTie.vo", "model/PadContentTie.vo", "model/PadAnimTie.vo"]
 HEADER = ("From Coq Require Import List ZArith.\nImport ListNotations.\n"
           "From TI Require Import lib.Term lib.RectCheck model.Padding model.PadTie model.PadGen model.PadGenTie.\n"
           "Open Scope Z_scope.\n")
 HHEADER = ("From Coq Require Import List ZArith.\nImport ListNotations.\n"
            "From TI Require Import lib.Term lib.RectCheck model.Padding model.PadTie model.PadHist model.PadHistTie.\n"
+           "Open Scope Z_scope.\n")
+CHEADER = ("From Coq Require Import List ZArith.\nImport ListNotations.\n"
+           "From TI Require Import lib.Term lib.RectCheck model.Padding model.PadTie model.PadGen model.PadGenTie model.PadContentTie.\n"
+           "Open Scope Z_scope.\n")
+AHEADER = ("From Coq Require Import List ZArith.\nImport ListNotations.\n"
+           "From TI Require Import lib.Term lib.RectCheck model.Padding model.PadTie model.Draw model.PadAnimTie.\n"
            "Open Scope Z_scope.\n")
 IMG_K = 100  # frame numbers of images in a history's table of bare renders (impl_c05.IMG_K)
 
@@ -195,7 +214,8 @@ def corpus():
     return cs
 
 
-def case_term(c, res):
+def case_term(c, res, lex=None, lexed=True):
+    lex = lex or lex_out
     p = c["padding"]
     if p["kind"] == "aligned":
         k = f"PAligned {core.z(p['W']).replace('%Z','')} {core.z(p['H']).replace('%Z','')} {p['ha']}%nat {p['va']}%nat"
@@ -203,8 +223,8 @@ def case_term(c, res):
         k = f"POld {core.z(p['W']).replace('%Z','')} {core.z(p['H']).replace('%Z','')} {p['ha']}%nat {p['va']}%nat"
     else:
         k = f"PExact {p['l']} {p['t']} {p['r']} {p['b']}"
-    inner = lex_out(res["inner"], ())
-    obs = lex_out(res["out"], (c["fill"],))
+    inner = lex(res["inner"], ()) if lexed else []
+    obs = lex(res["out"], (c["fill"],)) if lexed else []
     dims = res.get("dims")
     w, h = res["size"]
     tw, th = c["term_size"]
@@ -601,33 +621,431 @@ def shrink_history(c, rounds=10):
     return best
 
 
+# ------------------------------------------------------------------------------- content and animations (round 6)
+# The render CONTENT.  `Padding.pad(render, render_size)`: "a render output, in the form specified to be returned by
+# Renderable._render_()" - `height` lines separated by "\n" (exactly height - 1 of them), each occupying `width` columns.
+# What a line is made of is the caller's.  The universe of line contents used here:
+#   plain   one-column glyphs
+#   sgr     a direct-colour SGR in the middle of a line, reset before the line ends (attributes default at "\n")
+#   zw      characters that occupy no column and that the terminal ignores (-> token TNul), all of which some
+#           text-processing functions (str.splitlines) take for line boundaries: U+2028, U+2029, U+001C..U+001E
+#   mixed   sgr + zw
+#   ctl     content the terminal model has no token for (judged at CODE-POINT level only): "\v", "\f", U+0085 (also
+#           str.splitlines boundaries), combining marks after a base letter, East-Asian wide characters (2 columns)
+# A lone "\r" inside a line is a cursor control that breaks the render contract itself: left out.
+ZW_IGNORED = ("\u2028", "\u2029", "\x1c", "\x1d", "\x1e")
+CTL_RAW = ("\x0b", "\x0c", "\x85")
+COMBINING = ("\u0301", "\u0323")
+WIDE = ("\u4e2d", "\uff21")
+ZW_MAP = {ord(ch): "\0" for ch in ZW_IGNORED}
+SPECIAL = set(ZW_IGNORED + CTL_RAW + COMBINING + WIDE)
+FLAVOURS = ("plain", "sgr", "zw", "mixed", "ctl")
+
+
+def content_lex(text, fills=()):
+    """the lexer route for text content: a zero-width character the terminal ignores is the token TNul"""
+    return lex_out(text.translate(ZW_MAP), fills)
+
+
+def text_lines(rng, w, h, flavour, letters="abcdefg"):
+    """h lines of w columns"""
+    rows = []
+    for _ in range(h):
+        cells = [rng.choice(letters) for _ in range(w)]
+        if flavour == "ctl" and w >= 2 and rng.random() < 0.3:
+            k = rng.randrange(w - 1)
+            cells[k:k + 2] = [rng.choice(WIDE)]
+        if flavour in ("sgr", "mixed") and rng.random() < 0.8:
+            a = rng.randrange(len(cells))
+            b = rng.randint(a, len(cells) - 1)
+            cells[a] = f"\x1b[{rng.choice((38, 48))};2;{rng.randrange(256)};{rng.randrange(256)};{rng.randrange(256)}m" + cells[a]
+            cells[b] += "\x1b[0m"
+        rows.append(cells)
+    if flavour in ("zw", "mixed", "ctl"):
+        pool = ZW_IGNORED if flavour != "ctl" else ZW_IGNORED + CTL_RAW + CTL_RAW + COMBINING
+        for n in range(rng.choice([1, 1, 2, 3])):
+            cells = rows[rng.randrange(h)] if n else rows[rng.choice([0, h - 1, rng.randrange(h)])]
+            ch = rng.choice(pool)
+            k = rng.randrange(len(cells))
+            if ch in COMBINING or rng.random() < 0.5:
+                cells[k] += ch            # after the cell (a combining mark follows its base)
+            else:
+                cells[k] = ch + cells[k]  # before the cell (k = 0: first character of the line)
+    return ["".join(cells) for cells in rows]
+
+
+def specials_of(lines):
+    return sorted({f"U+{ord(ch):04X}" for ln in lines for ch in ln if ch in SPECIAL})
+
+
+def gen_box_padding(rng, w, h, asym=False):
+    """a padding and a terminal it fits on; asym: the vertical margins differ (most of the time)"""
+    r = rng.random()
+    if r < 0.4:
+        t, b = rng.choice([0, 0, 1, 2, 3]), rng.choice([0, 1, 2, 3])
+        if asym and t == b and rng.random() < 0.85:
+            b = t + rng.choice([1, 2])
+        p = {"kind": "exact", "l": rng.choice([0, 1, 1, 2, 3]), "t": t, "r": rng.choice([0, 0, 1, 2]), "b": b}
+        pw, ph = p["l"] + w + p["r"], t + h + b
+        return p, [pw + rng.randint(0, 3), ph + rng.randint(0, 3)]
+    sh, sv = rng.choice([0, 1, 2, 3, 4]), rng.choice([0, 1, 1, 2, 3, 3, 4])
+    va = rng.randrange(3)
+    if asym and (sv == 0 or (va == 1 and sv % 2 == 0)) and rng.random() < 0.85:
+        sv += 1
+    pw, ph = w + sh, h + sv
+    tw, th = pw + rng.randint(0, 3), ph + rng.randint(0, 3)
+    W = pw - tw if rng.random() < 0.3 else pw     # the same box spelt relative to the terminal
+    H = ph - th if rng.random() < 0.3 else ph
+    if rng.random() < 0.1:
+        W = max(1, w - 1)                           # a minimum below the render size: no effect on that axis
+    return {"kind": "aligned", "W": W, "H": H, "ha": rng.randrange(3), "va": va}, [tw, th]
+
+
+def gen_content_case(rng):
+    w, h = rng.randint(1, 6), rng.randint(1, 4)
+    flavour = rng.choice(["zw", "zw", "zw", "mixed", "mixed", "sgr", "ctl", "ctl", "plain"])
+    p, term = gen_box_padding(rng, w, h)
+    return {"kind": "content", "render": {"style": "text", "cells": [w, h], "flavour": flavour,
+                                          "lines": text_lines(rng, w, h, flavour)},
+            "term_size": term, "padding": p, "fill": rng.choice(("space", "star", "star", "empty", "empty") + MULTI),
+            "via": rng.choice(["pad", "pad", "renderable", "iterator"])}
+
+
+def content_corpus():
+    cs = []
+    ex = lambda l, t, r, b: {"kind": "exact", "l": l, "t": t, "r": r, "b": b}
+    al = lambda W, H, ha, va: {"kind": "aligned", "W": W, "H": H, "ha": ha, "va": va}
+    mk = lambda lines, flavour, p, fill, via: {"kind": "content", "render": {"style": "text", "cells": [3, len(lines)], "flavour": flavour,
+                                                                                   "lines": lines},
+                                               "term_size": [12, 9], "padding": p, "fill": fill, "via": via}
+    for ch in ZW_IGNORED + CTL_RAW:
+        fl = "zw" if ch in ZW_IGNORED else "ctl"
+        cs.append(mk([f"ab{ch}c", "xyz"], fl, ex(2, 1, 1, 1), "star", "pad"))
+        cs.append(mk([f"ab{ch}c", "xyz"], fl, ex(0, 0, 2, 0), "star", "renderable"))
+        cs.append(mk(["abc", f"{ch}xyz"], fl, al(6, 4, 2, 2), "space", "iterator"))
+        cs.append(mk([f"abc{ch}", "xyz"], fl, ex(1, 0, 0, 2), "empty", "pad"))
+    # an escape sequence in the middle of a line; the same with a zero-width character inside the coloured run
+    cs.append(mk(["a\x1b[38;2;9;8;7mb\x1b[0mc", "xyz"], "sgr", ex(1, 1, 2, 0), "star", "pad"))
+    cs.append(mk(["a\x1b[48;2;9;8;7mb\u2028c\x1b[0m", "x\u2029yz"], "mixed", al(7, 3, 1, 1), "bgblank", "renderable"))
+    # a one-line render; a line that is nothing but its glyphs and a zero-width character at both ends
+    cs.append(mk(["\u2028abc\u2029"], "zw", ex(1, 0, 1, 0), "empty", "pad"))
+    cs.append(mk(["e\u0301bc", "x\u4e2d"], "ctl", ex(1, 1, 1, 1), "star", "pad"))
+    return cs
+
+
+def codepoints(text):
+    return "[" + "; ".join(str(ord(ch)) for ch in text) + "]"
+
+
+def content_term(c, res):
+    lexed = c["render"].get("flavour") != "ctl"
+    g = case_term(c, res, lex=content_lex, lexed=lexed)
+    return (f"{{| c_g := {g}; c_lexed := {'true' if lexed else 'false'}; "
+            f"c_raw_inner := {codepoints(res['inner'])}; c_raw_obs := {codepoints(res['out'])} |}}")
+
+
+def describe_content(c):
+    r = c["render"]
+    return (f"text render {r['cells'][0]}x{r['cells'][1]} lines={r['lines']!r} ({r.get('flavour')}: {', '.join(specials_of(r['lines'])) or 'no zero-width character'}) "
+            f"padding={c['padding']} fill={c['fill']}={FILL_STR[c['fill']]!r} term={c['term_size']} via={c.get('via', 'pad')}")
+
+
+# ANIMATED draws: Renderable.draw() of an n-frame text renderable on a pty, with a padding.
+ANIM_FILLS = ("space", "star", "star", "empty", "empty", "comb", "rev")
+
+
+def gen_anim_case(rng):
+    w, h = rng.randint(1, 4), rng.randint(1, 3)
+    n = rng.choice([2, 2, 3])
+    flavour = rng.choice(["plain", "plain", "sgr", "zw", "mixed"])
+    p, term = gen_box_padding(rng, w, h, asym=True)
+    return {"kind": "anim", "size": [w, h], "flavour": flavour,
+            "frames": [text_lines(rng, w, h, flavour, letters="abcdefghi"[3 * k:3 * k + 3]) for k in range(n)],
+            "term_size": term, "padding": p, "fill": rng.choice(ANIM_FILLS), "loops": rng.choice([1, 1, 2]),
+            "cache": rng.choice([True, False])}
+
+
+def anim_corpus():
+    cs = []
+    ex = lambda l, t, r, b: {"kind": "exact", "l": l, "t": t, "r": r, "b": b}
+    al = lambda W, H, ha, va: {"kind": "aligned", "W": W, "H": H, "ha": ha, "va": va}
+    fr = lambda n, w=3, h=2: [["ABC"[k] * w] * h for k in range(n)]
+    mk = lambda p, fill, n=3, loops=1, term=(12, 9): {"kind": "anim", "size": [3, 2], "flavour": "plain", "frames": fr(n),
+                                                      "term_size": list(term), "padding": p, "fill": fill, "loops": loops, "cache": True}
+    # symmetric vertical margins / horizontal only / none
+    cs += [mk(al(7, 6, 1, 1), "star"), mk(ex(2, 1, 1, 1), "star"), mk(al(9, 1, 2, 1), "star"), mk(ex(0, 0, 0, 0), "space", n=2)]
+    # top margin != bottom margin: MIDDLE with odd slack, TOP / BOTTOM with slack, exact, empty fill, relative box
+    cs += [mk(al(7, 7, 1, 1), "star"), mk(al(7, 6, 2, 0), "star"), mk(al(7, 6, 0, 2), "star"), mk(ex(1, 3, 2, 0), "star"),
+           mk(ex(1, 0, 2, 3), "empty"), mk(ex(0, 0, 0, 1), "star", n=2), mk(ex(0, 1, 0, 0), "space", n=2),
+           mk(al(0, -2, 1, 0), "space", term=(8, 7)), mk(al(-3, 0, 0, 2), "empty", loops=2, term=(8, 6)),
+           mk(al(5, 5, 1, 1), "comb", n=2, loops=2)]
+    # frames with content: a zero-width character / a colour change in the middle of a line of a LATER frame
+    c = mk(ex(2, 0, 1, 2), "star")
+    c["frames"] = [["abc", "abc"], ["d\u2028ef", "def"], ["g\x1b[38;2;1;2;3mh\x1b[0mi", "gh\x1ei"]]
+    c["flavour"] = "mixed"
+    cs.append(c)
+    return cs
+
+
+def anim_term(c, res):
+    p = c["padding"]
+    k = (f"PAligned {zz(p['W'])} {zz(p['H'])} {p['ha']}%nat {p['va']}%nat" if p["kind"] == "aligned"
+         else f"PExact {p['l']} {p['t']} {p['r']} {p['b']}")
+    w, h = c["size"]
+    frames = "[" + "; ".join(lexer.coq_toks(content_lex(f)) for f in res["frames"]) + "]"
+    obs = lexer.coq_toks(content_lex(res["out"], (c["fill"],)))
+    return (f"{{| a_kind := {k}; a_fill := {FILL_T[c['fill']]}; a_tw := {c['term_size'][0]}; a_th := {c['term_size'][1]}; "
+            f"a_w := {w}; a_h := {h}; a_hide := true; a_frames := {frames}; a_obs := {obs}; a_rows := [0; 2] |}}")
+
+
+def anim_margins(c):
+    """generator-side only: (top, bottom) margins of an anim case"""
+    p = c["padding"]
+    if p["kind"] == "exact":
+        return p["t"], p["b"]
+    H = p["H"] if p["H"] > 0 else max(c["term_size"][1] + p["H"], 1)
+    s = max(H - c["size"][1], 0)
+    t = [0, s // 2, s][p["va"]]
+    return t, s - t
+
+
+def describe_anim(c):
+    t, b = anim_margins(c)
+    return (f"draw() of a {len(c['frames'])}-frame text renderable {c['size'][0]}x{c['size'][1]} on a pty, loops={c['loops']} cache={c['cache']} "
+            f"frames={c['frames']!r} padding={c['padding']} (top margin {t}, bottom margin {b}) fill={c['fill']}={FILL_STR[c['fill']]!r} term={c['term_size']}")
+
+
+def eval_extra(cases, tag="c05x"):
+    """content and anim cases: run them and judge them inside Coq; returns (impl results, {index: code}, errors)
+    with code -1 = raised, -2 = unlexable output"""
+    from concurrent.futures import ThreadPoolExecutor
+    impl = core.run_impl_parallel("impl_c05.py", cases)
+    codes, errors = {}, []
+    terms = {"content": ([], []), "anim": ([], [])}
+    for i, (c, r) in enumerate(zip(cases, impl)):
+        if "error" in r:
+            codes[i] = -1
+            continue
+        try:
+            terms[c["kind"]][0].append(content_term(c, r) if c["kind"] == "content" else anim_term(c, r))
+            terms[c["kind"]][1].append(i)
+        except lexer.LexError as e:
+            codes[i] = -2
+            r["lex_error"] = str(e)
+
+    def judge(kind):
+        ts, own = terms[kind]
+        if not ts:
+            return [], []
+        hdr, typ, expr = (CHEADER, "ccase", "cbad cases") if kind == "content" else (AHEADER, "acase", "abad cases")
+        bad, errs = core.coq_shards(f"{tag}{kind[0]}", hdr, ts, typ, expr, shard=max(6, (len(ts) + 5) // 6))
+        return [(own[idx], code) for idx, code in bad], errs
+    with ThreadPoolExecutor(max_workers=2) as pool:
+        for bad, errs in pool.map(judge, ("content", "anim")):
+            errors += errs
+            codes.update(dict(bad))
+    return impl, codes, errors
+
+
+def extra_explain(c, res):
+    try:
+        if c["kind"] == "content":
+            text = CHEADER + f"Set Printing Width 100000.\nEval vm_compute in (cexplain ({content_term(c, res)})).\n"
+        else:
+            text = AHEADER + f"Set Printing Width 100000.\nEval vm_compute in (aexplain ({anim_term(c, res)})).\n"
+    except lexer.LexError as e:
+        return f"unlexable: {e}"
+    rc, out = core.coq_eval_file(f"c05x_explain_{id(c)}", text)
+    vals = core.parse_evals(out)
+    return " ".join(vals[0].split()) if vals else out[-300:]
+
+
+def plain_line(ln, w):
+    return "".join(ch for ch in re.sub(r"\x1b\[[0-9;]*m", "", ln) if ch not in SPECIAL)[:w].ljust(w, "a")
+
+
+def shrink_candidates(c):
+    """smaller variants of a content / anim case"""
+    cands = []
+    simple = [{"kind": "exact", "l": 1, "t": 0, "r": 0, "b": 0}, {"kind": "exact", "l": 0, "t": 0, "r": 1, "b": 0},
+              {"kind": "exact", "l": 0, "t": 0, "r": 0, "b": 1}, {"kind": "exact", "l": 0, "t": 1, "r": 0, "b": 0}]
+    p = c["padding"]
+    if p["kind"] == "aligned":
+        w, h = c["render"]["cells"] if c["kind"] == "content" else c["size"]
+        tw, th = c["term_size"]
+        W = p["W"] if p["W"] > 0 else max(tw + p["W"], 1)
+        H = p["H"] if p["H"] > 0 else max(th + p["H"], 1)
+        sh, sv = max(W - w, 0), max(H - h, 0)
+        l, t = [0, sh // 2, sh][p["ha"]], [0, sv // 2, sv][p["va"]]
+        simple.insert(0, {"kind": "exact", "l": l, "t": t, "r": sh - l, "b": sv - t})
+    else:
+        for k in "ltrb":
+            if p[k] > 0:
+                simple.append({**p, k: p[k] - 1})
+                simple.append({**p, k: 0})
+    for q in simple:
+        if q != p:
+            cands.append({**c, "padding": q})
+    if c["fill"] not in ("star", "empty"):
+        cands.append({**c, "fill": "star"})
+    if c["kind"] == "content":
+        r = c["render"]
+        w, h = r["cells"]
+        if c.get("via", "pad") != "pad":
+            cands.append({**c, "via": "pad"})
+        for i in range(h):
+            if h > 1:
+                cands.append({**c, "render": {**r, "cells": [w, h - 1], "lines": r["lines"][:i] + r["lines"][i + 1:]}})
+            pl = plain_line(r["lines"][i], w)
+            if pl != r["lines"][i] and not any(ch in WIDE for ch in r["lines"][i]):
+                cands.append({**c, "render": {**r, "lines": r["lines"][:i] + [pl] + r["lines"][i + 1:]}})
+            for k, ch in enumerate(r["lines"][i]):
+                if ch in SPECIAL and ch not in WIDE and sum(x in SPECIAL for ln in r["lines"] for x in ln) > 1:
+                    ln = r["lines"][i]
+                    cands.append({**c, "render": {**r, "lines": r["lines"][:i] + [ln[:k] + ln[k + 1:]] + r["lines"][i + 1:]}})
+    else:
+        w, h = c["size"]
+        fs = c["frames"]
+        if c["loops"] > 1:
+            cands.append({**c, "loops": 1})
+        if len(fs) > 2:
+            cands += [{**c, "frames": fs[:i] + fs[i + 1:]} for i in range(len(fs))]
+        plain = [[plain_line(ln, w) for ln in f] for f in fs]
+        if plain != fs:
+            cands.append({**c, "frames": plain, "flavour": "plain"})
+        elif h > 1:
+            cands.append({**c, "size": [w, h - 1], "frames": [f[:-1] for f in fs]})
+        elif w > 1:
+            cands.append({**c, "size": [w - 1, h], "frames": [[ln[:-1] for ln in f] for f in fs]})
+    return cands
+
+
+def case_size(c):
+    p = c["padding"]
+    pad = sum(p[k] for k in "ltrb") if p["kind"] == "exact" else 50
+    body = sum(len(ln) for ln in c["render"]["lines"]) if c["kind"] == "content" else sum(len(ln) for f in c["frames"] for ln in f) * c["loops"]
+    return (body + pad, c.get("via", "pad") != "pad", c["fill"] not in ("star", "empty"))
+
+
+def shrink_extra(c, rounds=8):
+    """greedy: the smallest failing (code >= 2 / unlexable) candidate, until none fails"""
+    best = c
+    for _ in range(rounds):
+        if core.over_budget():
+            break
+        cands = sorted(shrink_candidates(best), key=case_size)[:24]
+        if not cands:
+            break
+        _, codes, _ = eval_extra(cands, tag="c05xs")
+        nxt = next((k for i, k in enumerate(cands) if codes.get(i, 0) >= 2 or codes.get(i, 0) == -2), None)
+        if nxt is None:
+            break
+        best = nxt
+    return best
+
+
 def run(ctx):
     rng = ctx.rng
-    histories = []
+    histories, extra = [], []
     if ctx.replay:
         cases = [ctx.replay["replay"]["case"]]
         if cases[0].get("kind") == "history":
             cases, histories = [], cases
+        elif cases[0].get("kind") in ("content", "anim"):
+            cases, extra = [], cases
     else:
         n = 320 if ctx.quick else 6000
         cases = corpus() + [gen_case(rng) for _ in range(n)]
         cases += [{"kind": "exact-invalid", "dims": [rng.randint(-2, 3) for _ in range(4)]} for _ in range(40)]
         nh = 50 if ctx.quick else 1200
         histories = history_corpus() + [(gen_iter_history if k % 2 else gen_call_history)(rng) for k in range(nh)]
+        nc, na = (70, 36) if ctx.quick else (2500, 1200)
+        extra = (content_corpus() + anim_corpus() + [gen_content_case(rng) for _ in range(nc)]
+                 + [gen_anim_case(rng) for _ in range(na)])
     from concurrent.futures import ThreadPoolExecutor
-    with ThreadPoolExecutor(max_workers=2) as pool:   # the histories run beside the single cases
+    with ThreadPoolExecutor(max_workers=3) as pool:   # the histories and the content / animation cases run beside the single cases
         hfut = pool.submit(eval_histories, histories) if histories else None
+        xfut = pool.submit(eval_extra, extra) if extra else None
         impl = core.run_impl_parallel("impl_c05.py", cases)
         himpl, hcodes, herrors = hfut.result() if hfut else ([], {}, [])
+        ximpl, xcodes, xerrors = xfut.result() if xfut else ([], {}, [])
     terms, owner = [], []
-    failures, mismatches, errors = [], [], list(herrors)
-    hfailures, lexfailures = [], []   # reported after the single cases judged inside Coq (the smallest inputs first)
+    failures, mismatches, errors = [], [], list(herrors) + list(xerrors)
+    hfailures, lexfailures, xfailures = [], [], []   # reported after the single cases judged inside Coq (the smallest inputs first)
     hist = {"kind": {}, "fill": {}, "style": {}, "via": {}, "relative": 0, "padded_h": 0, "padded_v": 0,
             "multi_code_point_fill": {"h_padded": 0, "v_only": 0, "unpadded": 0},
             "histories": {"iterator": 0, "calls": 0, "outputs": 0, "cache_on": 0, "cache_off": 0,
                           "revisits_after_same_box_padding_change": 0, "relative_call_repeated_after_resize": 0,
                           "via": {}}}
     distinct = set()
+    # ---- content and animation cases (round 6)
+    hist["content"] = {"cases": 0, "flavour": {}, "via": {}, "horizontally_padded": 0, "characters": {}}
+    hist["animations"] = {"cases": 0, "frames_drawn": 0, "top_margin_differs_from_bottom": 0, "flavour": {}, "fill": {}}
+    xshrunk = 0
+    for i, (c, r) in enumerate(zip(extra, ximpl)):
+        anim = c["kind"] == "anim"
+        if anim:
+            ha = hist["animations"]
+            ha["cases"] += 1
+            ha["frames_drawn"] += len(c["frames"]) * c["loops"]
+            ha["flavour"][c["flavour"]] = ha["flavour"].get(c["flavour"], 0) + 1
+            ha["fill"][c["fill"]] = ha["fill"].get(c["fill"], 0) + 1
+            t, b = anim_margins(c)
+            if t != b:
+                ha["top_margin_differs_from_bottom"] += 1
+                distinct.add(core.sig(["anim", c]))
+        else:
+            hc = hist["content"]
+            hc["cases"] += 1
+            fl = c["render"].get("flavour", "?")
+            hc["flavour"][fl] = hc["flavour"].get(fl, 0) + 1
+            hc["via"][c.get("via", "pad")] = hc["via"].get(c.get("via", "pad"), 0) + 1
+            sp = specials_of(c["render"]["lines"])
+            for ch in sp:
+                hc["characters"][ch] = hc["characters"].get(ch, 0) + 1
+            d = r.get("dims") or [0] * 6
+            if d[0] or d[2]:
+                hc["horizontally_padded"] += 1
+                if sp:
+                    distinct.add(core.sig(["content", c]))
+        code = xcodes.get(i, 0)
+        if code == 0:
+            continue
+        descr = describe_anim if anim else describe_content
+        if code == -1:
+            xfailures.append({"signature": core.sig(["raise", c]), "what": f"raised: {r.get('error')} - {descr(c)}", "replay": {"case": c}})
+            continue
+        if code == 1:
+            mismatches.append({"case": c, "code": code, "explain": extra_explain(c, r) if len(mismatches) < 3 else ""})
+            continue
+        if len(xfailures) >= 8:
+            continue
+        small, res_small = c, r
+        if xshrunk < 2 and not ctx.replay:
+            xshrunk += 1
+            small = shrink_extra(c)
+            if small is not c:
+                res_small = core.run_impl_parallel("impl_c05.py", [small])[0]
+        if code == -2 and "lex_error" not in res_small:
+            try:
+                (anim_term if anim else content_term)(small, res_small)
+            except lexer.LexError as e:
+                res_small["lex_error"] = str(e)
+        why = res_small.get("lex_error") if code == -2 else extra_explain(small, res_small)
+        if anim:
+            what = ("after the whole output of an animated draw() has been executed on the terminal, the screen is NOT the padded box "
+                    "holding the LAST frame at the offset (top, left) dictated by the alignment with the fill everywhere else "
+                    f"((margins, first token difference from the model stream, per start row the clauses [margins>=0; nothing outside the box; "
+                    f"line below untouched; cursor below the box; state clean; box content]) = {why})" if code != -2 else
+                    f"the output of an animated draw() cannot be lexed: {why}")
+        else:
+            what = ("the padded output of a text render does not contain the render unchanged inside exactly the padded size "
+                    f"((margins, inner render is h lines, code-point clauses [margins>=0; lines split at LF only = top+h+bottom; = get_padded_size; "
+                    f"every line of the render unchanged on its own line], lines of the output, token-level judgement) = {why})" if code != -2 else
+                    f"the padded output of a text render cannot be lexed: {why}")
+        xfailures.append({"signature": core.sig(["content-oracle" if not anim else "anim-oracle", small]),
+                          "what": f"{what} - {descr(small)}",
+                          "replay": {"case": small, "output": res_small.get("out", "")[:1500]}})
     hh = hist["histories"]
     shrunk = 0
     for i, (c, r) in enumerate(zip(histories, himpl)):
@@ -747,7 +1165,7 @@ def run(ctx):
                 mismatches.append({"case": c, "code": code, "explain": explain(c, r) if len(mismatches) < 3 else ""})
     return {
         "corr_name": "Padding.pad / aligned_dims / resolve / old_dims (model) == real Padding classes, Renderable.render gate, old image API",
-        "evaluations": len(cases) + len(histories),
+        "evaluations": len(cases) + len(histories) + len(extra),
         "distinct_nontrivial": len(distinct),
         "rule": "corpus (9 alignments x {aligned absolute, aligned relative with empty fill on a graphics render, old API defaults}, exact, "
                 "the narrow-pad-width old-API shape) + random: inner renders of block/kitty/iterm2 (1..6 x 1..5 cells, every method, "
@@ -769,18 +1187,35 @@ def run(ctx):
                 "set_render_size | seek | next, and of resize | call with a padding from a small pool through format / draw / fmt / "
                 "render; EVERY output judged by the oracle against the padding and terminal size in force (model/PadHist.v "
                 "spec_descrs). Non-trivial history: a frame revisited after a same-box padding change, or a relative per-call "
-                "padding repeated after a resize.",
+                "padding repeated after a resize. "
+                "CONTENT (round 6): text renders (1..6 x 1..4) whose lines hold glyphs / a direct-colour SGR in the middle of a line / "
+                "characters that occupy no column and are not line separators of the render contract (U+2028, U+2029, U+001C..U+001E as "
+                "TNul; and, judged at code-point level only, VT, FF, U+0085, combining marks, East-Asian wide characters), at the start, "
+                "in the middle and at the end of lines; padded by pad(), Renderable.render(padding=) and as a RenderIterator frame with "
+                "every fill; corpus: each of the eight str.splitlines-only separators x {margins on all sides, right only via render(), "
+                "aligned via an iterator, empty fill}. Non-trivial: horizontally padded with at least one such character. "
+                "ANIMATIONS (round 6): Renderable.draw() of 2-3 frame text renderables (1..4 x 1..3, loops 1-2, cache on/off) on a pty with "
+                "paddings whose top margin differs from the bottom margin (VAlign TOP / BOTTOM with slack, MIDDLE with odd slack, "
+                "ExactPadding top != bottom, relative boxes, empty fill); the whole stream executed on the terminal model from two start "
+                "rows, the padding oracle applied to the final screen. Non-trivial: top margin != bottom margin.",
         "samples": [describe(c) for c in cases[:2] + cases[40:42] if "render" in c]
-                   + [describe_history(c) for c in histories[:1] + histories[22:23] + histories[-2:]],
+                   + [describe_history(c) for c in histories[:1] + histories[22:23] + histories[-2:]]
+                   + [describe_content(c) for c in extra if c["kind"] == "content"][-1:]
+                   + [describe_anim(c) for c in extra if c["kind"] == "anim"][-1:],
         "histogram": hist,
         "mismatches": mismatches,
-        "failures": failures + lexfailures + hfailures,
+        "failures": xfailures + failures + lexfailures + hfailures,
         "errors": errors,
         "assumptions": ["the inner render satisfies the line-structured render contract (LinesRect; proved for all five render shapes in C01's development)",
                         "histories: _render_ is a function of (frame number, render size) and returns a frame of the requested size; "
                         "the loop budget of the iterator is not exhausted; seek() with Seek.START on a definite frame count",
                         "the fill occupies one column: OneCell (model/PadGen.v) - decided by styled_fillb for the fills whose tokens the lexer has; "
                         "for the combining / joiner / variation-selector / SGR-7 fills it is the terminal's (Unicode, ECMA-48) rule that the "
-                        "whole string shows as one cell, represented by a placeholder glyph", "terminal conventions of lib/Term.v"],
-        "trusted": ["harness/lexer.py", "harness/props/c05.py prelex (whole fill -> placeholder; fail-closed on fragments)"],
+                        "whole string shows as one cell, represented by a placeholder glyph", "terminal conventions of lib/Term.v",
+                        "content: U+2028, U+2029, U+001C..U+001E occupy no column and are ignored by the terminal (token TNul); "
+                        "VT, FF, U+0085, combining marks and wide characters have no token in the terminal model: renders holding them are judged "
+                        "by the code-point level oracle only (line count, lines unchanged, get_padded_size), not on the screen",
+                        "animations: the frames of the instrumented renderable meet the render contract (lines of w one-column glyphs)"],
+        "trusted": ["harness/lexer.py", "harness/props/c05.py prelex (whole fill -> placeholder; fail-closed on fragments)",
+                    "harness/props/c05.py content_lex (terminal-ignored zero-width character -> NUL)"],
     }
